@@ -536,5 +536,52 @@ def run(chk, prog):
     ok = ok and all("upper_power_of_two" in str(a.value) for a in later)
     chk.check(bool(ok), "R1", mainf.where, "main: the bucket-train length is ceil(N * n_buckets * spacing), only ever enlarged (to a power of two)", "main:spaced_bins")
     chk.floor("R1-obligations", n1, 30)
+    # ---- R6: class invariant behind the loops bounded by nFreqs(): Impedance::_nfreqs == _data.size() ---------------------------------
+    # constructors establish it (R1/R4 lemmas); it survives only if nothing changes the length of _data afterwards.  Every member that can
+    # (swap, assignment of the sample vector, resize, ...; directly or through another member) must have no caller outside the class.
+    SIZE_CHANGING = {"swap", "resize", "assign", "push_back", "emplace_back", "clear", "insert", "erase", "pop_back", "shrink_to_fit"}
+    imp_cls = {"vfps::Impedance"} | prog.subclasses("vfps::Impedance")
+    meths = [fq for fq in prog.functions.values() if fq.get("class") in imp_cls and fq.get("body") and fq.get("kind") not in ("ctor", "dtor")]
+    changing = {}
+    for fq in meths:
+        for x in A.walk(fq["body"]):
+            if x.get("k") == "CXXMemberCallExpr" and (x.get("callee") or "").split("::")[-1] in SIZE_CHANGING and A.member_name(A.call_object(x)) == "_data":
+                changing.setdefault(fq["sig"], "%s on _data (line %d)" % (x["callee"].split("::")[-1], x["line"]))
+            if x.get("k") == "CallExpr" and (x.get("callee") or "") in ("std::swap", "swap") and any(A.member_name(a_) == "_data" for a_ in x.get("args", [])):
+                changing.setdefault(fq["sig"], "std::swap of _data (line %d)" % x["line"])
+            if x.get("k") in ("CXXOperatorCallExpr", "BinaryOperator") and x.get("op") == "=":
+                lhs_ = (x.get("args") or x.get("c"))[0]
+                if A.member_name(lhs_) == "_data" and "vector" in (A.strip(lhs_).get("ctype") or ""):
+                    changing.setdefault(fq["sig"], "assignment to _data (line %d)" % x["line"])
+    grew = True
+    while grew:
+        grew = False
+        for fq in meths:
+            if fq["sig"] in changing:
+                continue
+            for x in A.walk(fq["body"]):
+                if x.get("callee_sig") in changing:
+                    changing[fq["sig"]] = "calls %s" % x["callee"].split("::")[-1]
+                    grew = True
+                    break
+    n6 = 0
+    for sig, why in sorted(changing.items()):
+        fq = prog.functions[sig]
+        chk.used(fq)
+        sites = []
+        for g_ in prog.functions.values():
+            if g_.get("class") in imp_cls or not (g_.get("body") or g_.get("inits")):
+                continue
+            roots = ([g_["body"]] if g_.get("body") else []) + [i_["expr"] for i_ in g_.get("inits", []) if isinstance(i_.get("expr"), dict)]
+            for r_ in roots:
+                for x in A.walk(r_):
+                    if x.get("callee_sig") == sig:
+                        sites.append(A.loc(g_, x))
+        n6 += 1
+        chk.check(not sites, "R6", sites[0] if sites else fq.where,
+                  "%s can change the number of samples without changing nFreqs() (%s): it has no caller outside the class%s"
+                  % (fq["qname"].replace("vfps::", ""), why, "" if not sites else " -- called at %s; afterwards loops bounded by nFreqs() over- or under-run the samples" % sites),
+                  "%s:length-changing-member-called" % fq["qname"].replace("vfps::", ""))
+    chk.floor("R6-length-changing-members", n6, 2)
     chk.notes.append("C17: %d bounds obligations on the work arrays (symbolic max index vs. allocation extent), stream-extraction discipline, definite assignment "
                      "of scalar locals over all functions, foreign-container subscripts, guarded integer division. NOT decided: UB-freedom in general, libraries." % n1)
